@@ -260,6 +260,7 @@ Inductive cty :=
 | TVarTuple (t : cty)
 | TTuple (ts : ctys)
 | TStruct (fs : cfields)
+| TRawList | TRawDict | TRawTuple     (* bare List / list, Dict / dict, Tuple: contents not inspected *)
 with ctys := TNil | TCons (t : cty) (ts : ctys)
 with cfields := FNil | FCons (name : str) (t : cty) (dflt : option cval) (fs : cfields).
 
@@ -376,6 +377,12 @@ Section Parse.
                           | None => Ok (VStruct items)
                           end)
                     | _ => Err Mismatch p end
+    (* untyped aggregates: the value is passed as it is (a bare Tuple turns the list into a tuple) *)
+    | TRawList => match d with JList l => Ok (VList (map embed l)) | _ => Err Mismatch p end
+    | TRawDict => match d with
+                  | JObj l => Ok (VDict (map (fun kv => (fst kv, embed (snd kv))) l))
+                  | _ => Err Mismatch p end
+    | TRawTuple => match d with JList l => Ok (VTuple (map embed l)) | _ => Err Mismatch p end
     end
   with parse_tuple (ts : ctys) (l : list jval) (i : nat) (p : path) {struct ts}
     : result (list cval) :=
@@ -431,6 +438,9 @@ Inductive has_type : cty -> cval -> Prop :=
 | ht_dict t l : Forall (fun kv => has_type t (snd kv)) l -> has_type (TDict t) (VDict l)
 | ht_tuple ts l : tuple_has_type ts l -> has_type (TTuple ts) (VTuple l)
 | ht_struct fs l : fields_have_type fs l -> has_type (TStruct fs) (VStruct l)
+| ht_rawlist l : Forall plain l -> has_type TRawList (VList l)
+| ht_rawdict l : Forall (fun kv => plain (snd kv)) l -> has_type TRawDict (VDict l)
+| ht_rawtuple l : Forall plain l -> has_type TRawTuple (VTuple l)
 with tuple_has_type : ctys -> list cval -> Prop :=
 | tht_nil : tuple_has_type TNil []
 | tht_cons t ts v l : has_type t v -> tuple_has_type ts l -> tuple_has_type (TCons t ts) (v :: l)
@@ -449,6 +459,7 @@ Inductive wf_ty : cty -> Prop :=
 | wf_vartuple t : wf_ty t -> wf_ty (TVarTuple t)
 | wf_tuple ts : wf_tys ts -> wf_ty (TTuple ts)
 | wf_struct fs : wf_fields fs -> wf_ty (TStruct fs)
+| wf_rawlist : wf_ty TRawList | wf_rawdict : wf_ty TRawDict | wf_rawtuple : wf_ty TRawTuple
 with wf_tys : ctys -> Prop :=
 | wft_nil : wf_tys TNil
 | wft_cons t ts : wf_ty t -> wf_tys ts -> wf_tys (TCons t ts)
@@ -470,9 +481,9 @@ Fixpoint shape_ok (foi : Z -> option str) (T : cty) (d : jval) : bool :=
   | TFloat, JBool b => match foi (b2z b) with Some _ => true | None => false end
   | TStr, JStr _ => true
   | TBool, JBool _ => true
-  | (TList _ | TVarTuple _), JList _ => true
+  | (TList _ | TVarTuple _ | TRawList | TRawTuple), JList _ => true
   | TTuple ts, JList l => Nat.eqb (length l) (tlen ts)
-  | (TDict _ | TStruct _), JObj _ => true
+  | (TDict _ | TStruct _ | TRawDict), JObj _ => true
   | _, _ => false
   end.
 
@@ -526,6 +537,9 @@ Inductive conv (foi : Z -> option str) : cty -> jval -> jval -> Prop :=
 | cv_struct fs l l' :
     (forall k, In k (map fst l) -> mem k (fnames fs) = true) ->     (* no key of d is dropped *)
     conv_fields foi fs l l' -> conv foi (TStruct fs) (JObj l) (JObj l')
+| cv_rawlist l : conv foi TRawList (JList l) (JList l)
+| cv_rawdict l : conv foi TRawDict (JObj l) (JObj l)
+| cv_rawtuple l : conv foi TRawTuple (JList l) (JList l)
 with conv_tuple (foi : Z -> option str) : ctys -> list jval -> list jval -> Prop :=
 | cvt_nil : conv_tuple foi TNil [] []
 | cvt_cons t ts d d' l l' : conv foi t d d' -> conv_tuple foi ts l l' ->
